@@ -67,6 +67,7 @@ pub fn main(args: &Args) {
                     r.sample(routelab::app_json(&m));
                 }
                 routelab::run_app_cases(&mut r, addr, &m, &mut rng, nreq, glob_ref, "threaded", &["c04".to_string(), "--seed".into(), seed.to_string(), "--app".into(), k.to_string()]);
+                routelab::run_keepalive_cases(&mut r, addr, &m, &mut rng, nreq / 4 + 1, glob_ref, "threaded", &["c04".to_string(), "--seed".into(), seed.to_string(), "--app".into(), k.to_string()]);
             }
             tx.send(()).ok();
             if only.is_some() {
